@@ -35,7 +35,7 @@ VF_MESSAGES = [
     'decreases not satisfied', 'could not prove termination', 'possible bit shift underflow/overflow',
     'unable to prove', 'failed to prove', 'assertion failure', 'loop invariant', 'cannot prove',
     'possible arithmetic', 'recursive call', 'arithmetic underflow', 'arithmetic overflow',
-    'not satisfied',
+    'not satisfied', 'fails to satisfy',
 ]
 UNDECIDED_MESSAGES = ['rlimit', 'resource limit', 'timed out', 'timeout', 'canceled']
 
